@@ -1,3 +1,84 @@
-From Gleece Require Import Base.Bytes Model.Project Model.Spec.
-Theorem placeholder : True. Proof. exact I. Qed.
-Print Assumptions placeholder.
+(* C06 - Every operation's parameters, request body and responses are those of the
+   signature and annotations of a non-hidden method with its verb, path and id: path/query/
+   header parameters in signature order with the textual requiredness rule, one JSON body
+   or one form object, the success response and exactly the declared error codes.
+   Only statements here; every proof is [exact lemma] (Proofs/SpecProofs.v).
+
+   The unconditional statement  forall p d, spec_ops p = Some d -> prop_C06 p d = true  is
+   FALSE of the model (C06_refuted_without_linking): the emitter assumes what the
+   validators establish for accepted methods.  [params_linked] states exactly that (per
+   visible method, over non-context parameters: at most one body, never a body with form
+   fields, form wire names pairwise distinct), and it is exact for the body clause
+   (C06_linking_exact).  The url/header params and the responses need no precondition. *)
+From Gleece Require Import Base.Bytes Model.Project Model.Spec Proofs.SpecProofs.
+From Coq Require Import String.
+Open Scope list_scope.
+
+Theorem C06_holds : forall p d,
+  params_linked p = true -> spec_ops p = Some d -> prop_C06 p d = true.
+Proof. exact spec_ops_C06. Qed.
+
+Theorem C06_refuted_without_linking :
+  exists p d, spec_ops p = Some d /\ prop_C06 p d = false.
+Proof. exact C06_unconditional_refuted. Qed.
+
+(* the precondition, readably *)
+Theorem C06_linking_meaning : forall ps,
+  method_linked ps = true ->
+  NoDup (map wire_name (forms ps)) /\
+  (bodies ps = [] \/ exists bp, bodies ps = [bp] /\ forms ps = []).
+Proof. exact method_linked_spec. Qed.
+
+(* it is exactly what the body clause needs *)
+Theorem C06_linking_exact : forall ps, body_by_text ps (gen_body ps) = method_linked ps.
+Proof. exact body_by_text_exact. Qed.
+
+(* the unconditional parts *)
+Theorem C06_required_rule : forall p, param_required p = required_by_text p.
+Proof. exact param_required_by_text. Qed.
+
+Theorem C06_params : forall ps,
+  gen_params ps = map param_by_text (filter in_url_or_header ps).
+Proof. exact gen_params_by_text. Qed.
+
+Theorem C06_responses : forall m, responses_by_text m (gen_responses m) = true.
+Proof. exact responses_by_text_gen. Qed.
+
+(* each clause of the precondition is needed: duplicate form names, two bodies, body + form *)
+Example C06_each_clause_needed :
+  (spec_ops cx_dup_form = Some (doc_of cx_dup_form) /\
+   prop_C06 cx_dup_form (doc_of cx_dup_form) = false /\ params_linked cx_dup_form = false) /\
+  (spec_ops cx_two_bodies = Some (doc_of cx_two_bodies) /\
+   prop_C06 cx_two_bodies (doc_of cx_two_bodies) = false /\ params_linked cx_two_bodies = false) /\
+  (spec_ops cx_body_and_form = Some (doc_of cx_body_and_form) /\
+   prop_C06 cx_body_and_form (doc_of cx_body_and_form) = false /\
+   params_linked cx_body_and_form = false).
+Proof. exact cx_each_clause_needed. Qed.
+
+(* non-vacuity: context, path, query, header (aliased, validator with "required"), slice,
+   pointer parameters; a JSON body; a three-field form; duplicated and success-shadowed
+   @ErrorResponse codes; the hidden method violates the linking rule and does not matter;
+   four tampered documents fail *)
+Example C06_nonvacuous :
+  spec_ops demo_project = Some demo_doc /\ List.length demo_doc = 4 /\
+  params_linked demo_project = true /\
+  prop_C06 demo_project demo_doc = true /\
+  prop_C06 demo_project
+    (map (fun o => with_sig o (map flip_required (o_params o)) (o_body o) (o_responses o)) demo_doc) = false /\
+  prop_C06 demo_project
+    (map (fun o => with_sig o (o_params o) BNone (o_responses o)) demo_doc) = false /\
+  prop_C06 demo_project
+    (map (fun o => with_sig o (o_params o) (o_body o) [last (o_responses o) (0%N, [], None)]) demo_doc) = false /\
+  prop_C06 demo_project
+    (map (fun o => with_sig o (o_params o) (o_body o) ((418%N, [], None) :: o_responses o)) demo_doc) = false.
+Proof. exact demo_C06. Qed.
+
+Print Assumptions C06_holds.
+Print Assumptions C06_refuted_without_linking.
+Print Assumptions C06_linking_meaning.
+Print Assumptions C06_linking_exact.
+Print Assumptions C06_required_rule.
+Print Assumptions C06_params.
+Print Assumptions C06_responses.
+Print Assumptions C06_each_clause_needed.
+Print Assumptions C06_nonvacuous.
